@@ -2,6 +2,7 @@ import Mutagen.Proofs.Executability
 import Mutagen.Proofs.ExecCycle
 import Mutagen.Proofs.Phantom
 import Mutagen.Model.SyncCycle
+import Mutagen.Proofs.ExecHistory
 /-!
 # C18 — executability survives synchronization through an endpoint that cannot store it
 
@@ -10,6 +11,7 @@ Property theorems only (helper lemmas live in `Mutagen.Proofs.Executability`).
 namespace Mutagen.Properties.C18
 open Mutagen.Model Mutagen.Proofs Mutagen.Proofs.Executability Mutagen.Proofs.ExecCycle
   Mutagen.Proofs.ReconcileLeaf Mutagen.Proofs.ReconcileShape Mutagen.Proofs.Phantom
+  Mutagen.Proofs.ExecHistory Mutagen.Model.ExecHistory
 
 /-- `propagate_rules`: for every ancestor `A`, source `S`, target `T` and every
 path `q`, the scalar fields `PropagateExecutability(A, S, T)` records at `q`
@@ -364,5 +366,166 @@ example :
         (leaf { kind := .file, executable := true, digest := [2] }) .oneWayReplica).beta =
       .ok (leaf { kind := .file, executable := false, digest := [1] }) :=
   replica_reverts_to_ancestor_bit _ _ _ rfl rfl rfl rfl (by decide)
+
+/-!
+## Histories
+
+States `(ancestor, P, N)`; steps: arbitrary edits on N, chmod of a file on P,
+new content for a file on P, and a fully applied cycle (reify with Docker-style
+ignores, propagate, reconcile, apply both plans, ancestor update with ideal
+results) — `Model/ExecHistory`.
+-/
+
+/-- A cycle never changes the bit: one fully applied cycle (reify, propagate,
+reconcile, apply) from a valid state in the situation of the property leaves
+P's file at `q` a file with the same executable bit. -/
+theorem cycle_keeps_bit (mode : Mode) (nAlpha docker : Bool) (q : Path) (s : State) (b : Bool)
+    (hv : ValidState s) (hok : CycleOK mode nAlpha docker q s) (hb : FileBit s.P q b) :
+    FileBit (cycleStep mode nAlpha docker s).P q b := by
+  obtain ⟨pP, hPq, hkP, hbP⟩ := hb
+  obtain ⟨pN, hNq, hkN⟩ := hok.fileN
+  obtain ⟨h1, h2⟩ := hok.outside pP pN hPq hNq
+  obtain ⟨hA, hP, hN⟩ := hv
+  cases docker with
+  | false =>
+    have hcP := hok.chainP
+    have hcN := hok.chainN
+    simp only [Bool.false_eq_true, if_false] at hcP hcN
+    cases nAlpha with
+    | true =>
+      simp only [cycleStep, planOf, reified, Bool.false_eq_true, if_false, if_true]
+      cases ha : apply s.P (Reconcile s.anc (propagateExecutability s.anc s.P s.N) s.P mode).beta with
+      | error _ => exact ⟨pP, hPq, hkP, hbP⟩
+      | ok P' =>
+        obtain ⟨p', h', hk', hx'⟩ := exec_preserved mode s.anc s.P s.N true q pP pN hA hP hN hcP hcN hPq hkP hNq hkN h1 h2 P'
+          (by simpa using ha)
+        exact ⟨p', h', hk', hx'.trans hbP⟩
+    | false =>
+      simp only [cycleStep, planOf, reified, Bool.false_eq_true, if_false]
+      cases ha : apply s.P (Reconcile s.anc s.P (propagateExecutability s.anc s.P s.N) mode).alpha with
+      | error _ => exact ⟨pP, hPq, hkP, hbP⟩
+      | ok P' =>
+        obtain ⟨p', h', hk', hx'⟩ := exec_preserved mode s.anc s.P s.N false q pP pN hA hP hN hcP hcN hPq hkP hNq hkN h1 h2 P'
+          (by simpa using ha)
+        exact ⟨p', h', hk', hx'.trans hbP⟩
+  | true =>
+    have hcP := hok.chainP
+    have hcN := hok.chainN
+    simp only [if_true] at hcP hcN
+    have hfP : isFileAt s.P q = true := by
+      simp only [propsAt] at hPq
+      cases hg : getPath s.P q with
+      | none => simp [hg] at hPq
+      | some e =>
+        simp only [hg, Option.map_some, Option.some.injEq] at hPq
+        simp [isFileAt, hg, isKind, Entry.kind, hPq, hkP]
+    have hfN : isFileAt s.N q = true := by
+      simp only [propsAt] at hNq
+      cases hg : getPath s.N q with
+      | none => simp [hg] at hNq
+      | some e =>
+        simp only [hg, Option.map_some, Option.some.injEq] at hNq
+        simp [isFileAt, hg, isKind, Entry.kind, hNq, hkN]
+    cases nAlpha with
+    | true =>
+      simp only [cycleStep, planOf, reified, if_true]
+      cases ha : apply (reify s.anc s.N s.P).beta (Reconcile s.anc
+          (propagateExecutability s.anc (reify s.anc s.N s.P).beta (reify s.anc s.N s.P).alpha)
+          (reify s.anc s.N s.P).beta mode).beta with
+      | error _ =>
+        obtain ⟨_, _, _, _, hgp⟩ := reify_chain q s.anc s.N s.P hcN hcP hfN hfP
+        exact ⟨pP, by simp only [applied, propsAt, hgp]; exact hPq, hkP, hbP⟩
+      | ok P' =>
+        obtain ⟨p', h', hk', hx'⟩ := exec_preserved_docker mode s.anc s.P s.N true q pP pN hA hP hN hcP hcN hPq hkP
+          hNq hkN h1 h2 _ _ rfl P' (by simpa using ha)
+        exact ⟨p', h', hk', hx'.trans hbP⟩
+    | false =>
+      simp only [cycleStep, planOf, reified, if_true, Bool.false_eq_true, if_false]
+      cases ha : apply (reify s.anc s.P s.N).alpha (Reconcile s.anc (reify s.anc s.P s.N).alpha
+          (propagateExecutability s.anc (reify s.anc s.P s.N).alpha (reify s.anc s.P s.N).beta) mode).alpha with
+      | error _ =>
+        obtain ⟨_, _, _, hgp, _⟩ := reify_chain q s.anc s.P s.N hcP hcN hfP hfN
+        exact ⟨pP, by simp only [applied, propsAt, hgp]; exact hPq, hkP, hbP⟩
+      | ok P' =>
+        obtain ⟨p', h', hk', hx'⟩ := exec_preserved_docker mode s.anc s.P s.N false q pP pN hA hP hN hcP hcN hPq hkP
+          hNq hkN h1 h2 _ _ rfl P' (by simpa using ha)
+        exact ⟨p', h', hk', hx'.trans hbP⟩
+
+/-- What a user step does to the bit of P's file at `q`. -/
+theorem edit_sets_user_bit (mode : Mode) (nAlpha docker : Bool) (q : Path) (s : State) (b : Bool) (x : Step)
+    (hx : x ≠ .cycle) (hb : FileBit s.P q b) :
+    FileBit (step mode nAlpha docker s x).P q (userBit q b [x]) := by
+  obtain ⟨p, hp, hk, he⟩ := hb
+  cases x with
+  | cycle => exact absurd rfl hx
+  | editN t => exact ⟨p, hp, hk, he⟩
+  | chmodP q' =>
+    by_cases hq : q' = q
+    · subst hq
+      refine ⟨_, setFile_self s.P q' _ p hp hk, hk, ?_⟩
+      simp [userBit, he]
+    · refine ⟨p, ?_, hk, ?_⟩
+      · simp only [step]; rw [setFile_other s.P q' q _ hq]; exact hp
+      · simp [userBit, hq, he]
+  | editP q' d =>
+    by_cases hq : q' = q
+    · subst hq
+      exact ⟨_, setFile_self s.P q' _ p hp hk, hk, by simp [userBit, he]⟩
+    · refine ⟨p, ?_, hk, by simp [userBit, he]⟩
+      simp only [step]; rw [setFile_other s.P q' q _ hq]; exact hp
+
+theorem userBit_cons (q : Path) (b : Bool) (x : Step) (rest : List Step) :
+    userBit q b (x :: rest) = userBit q (userBit q b [x]) rest := by
+  cases x <;> simp [userBit]
+
+/-- `exec_history`: over every history of edits on N, chmods on P, content
+edits on P and fully applied cycles — in every mode and orientation, with or
+without Docker-style ignores — if at every moment a cycle runs the state is
+valid and in the situation of the property (`CycleOK`: the file at `q` exists
+on both sides below directories, outside the two documented deviations), then
+at the end P's file at `q` carries exactly the bit the user last set on P: the
+initial bit flipped by the `chmodP q` steps. No cycle ever changes it, however
+often the content was edited on N in between. -/
+theorem exec_history (mode : Mode) (nAlpha docker : Bool) (q : Path) (steps : List Step) :
+    ∀ (s : State) (b : Bool), FileBit s.P q b →
+    (∀ pre, pre ++ [Step.cycle] <+: steps →
+      ValidState (run mode nAlpha docker s pre) ∧ CycleOK mode nAlpha docker q (run mode nAlpha docker s pre)) →
+    FileBit (run mode nAlpha docker s steps).P q (userBit q b steps) := by
+  induction steps with
+  | nil => intro s b hb _; exact hb
+  | cons x rest ih =>
+    intro s b hb hgood
+    rw [userBit_cons]
+    have hnext : FileBit (step mode nAlpha docker s x).P q (userBit q b [x]) := by
+      by_cases hx : x = .cycle
+      · subst hx
+        obtain ⟨hv, hok⟩ := hgood [] (by simp)
+        simpa [userBit, step] using cycle_keeps_bit mode nAlpha docker q s b hv hok hb
+      · exact edit_sets_user_bit mode nAlpha docker q s b x hx hb
+    have := ih (step mode nAlpha docker s x) (userBit q b [x]) hnext (by
+      intro pre hpre
+      have := hgood (x :: pre) (by simpa using hpre)
+      simpa [run] using this)
+    simpa [run] using this
+
+/-- `exec_history` with validity discharged from the explicit hypothesis
+`CyclesPreserveValid` (a fully applied cycle maps valid states to valid states —
+plan application preserves `EnsureValid`, the subject of C05/C07, *assumed* here,
+not proved): from a valid initial state, with valid user edits (`StepValid`: N is
+replaced by valid content, new file content has a non-empty digest), the bit of
+P's file at `q` is the one the user last set, whatever the history. -/
+theorem exec_history_of_cycles_preserve_valid (mode : Mode) (nAlpha docker : Bool) (q : Path)
+    (hc : CyclesPreserveValid mode nAlpha docker) (steps : List Step) (s : State) (b : Bool)
+    (hs : ValidState s) (hsteps : ∀ x ∈ steps, StepValid x) (hb : FileBit s.P q b)
+    (hok : ∀ pre, pre ++ [Step.cycle] <+: steps → CycleOK mode nAlpha docker q (run mode nAlpha docker s pre)) :
+    FileBit (run mode nAlpha docker s steps).P q (userBit q b steps) :=
+  exec_history mode nAlpha docker q steps s b hb fun pre hpre =>
+    ⟨run_valid mode nAlpha docker hc steps s hs hsteps pre ((List.prefix_append pre [Step.cycle]).trans hpre),
+      hok pre hpre⟩
+
+/-- The user's bit is a function of the chmods on P only: edits on N, edits on
+P and cycles do not enter it. -/
+example : userBit ["a"] true [.editN none, .cycle, .chmodP ["a"], .editP ["a"] [7], .cycle, .chmodP ["b"], .cycle] = false :=
+  rfl
 
 end Mutagen.Properties.C18
